@@ -62,7 +62,7 @@ static void c07_case(const vector<Tpl> &T, int a, int b, int n, int code, int sz
         } else {
             ConstrainedMajorizationLayout alg(rs, es, nullptr, 30); alg.setConstraints(&ccs); alg.setUnsatisfiableConstraintInfo(&ux, &uy); if (overlap) alg.setAvoidOverlaps(); alg.run();
         }
-    } catch (vpsc::CriticalFailure &f) { thrown = f.what(); ctx.count("aborted_by_assert"); } catch (...) { thrown = "exception"; ctx.count("aborted_by_exception"); }
+    } catch (vpsc::CriticalFailure &f) { thrown = f.what(); ctx.library_abort(f.what(), desc); } catch (...) { thrown = "exception"; ctx.library_abort("exception", desc); }
     VD x, y; bool bad = false; string pos;
     for (int i = 0; i < n; i++) { x.push_back(rs[i]->getCentreX()); y.push_back(rs[i]->getCentreY()); pos += mcx::fmt("(%g,%g)", x[i], y[i]);
         if (!(x[i] == x[i]) || !(y[i] == y[i]) || std::isinf(x[i]) || std::isinf(y[i])) { ctx.violation("nonfinite", {}, desc, pos); bad = true; }
@@ -117,7 +117,7 @@ static void c08_case(int n, int code, int sz, int hier, double pad, bool exempt,
         if (exempt) alg.setAvoidNodeOverlaps(true, {{0, 1}}); else alg.setAvoidNodeOverlaps(true);
         alg.setConstraints(ccs); if (root) alg.setClusterHierarchy(root); alg.setUnsatisfiableConstraintInfo(&ux, &uy);
         alg.makeFeasible(); alg.run();
-    } catch (vpsc::CriticalFailure &f) { thrown = f.what(); ctx.count("aborted_by_assert"); } catch (...) { thrown = "exception"; ctx.count("aborted_by_exception"); }
+    } catch (vpsc::CriticalFailure &f) { thrown = f.what(); ctx.library_abort(f.what(), desc); } catch (...) { thrown = "exception"; ctx.library_abort("exception", desc); }
     bool un = !ux.empty() || !uy.empty(); if (un) ctx.count("reported_unsatisfiable");
     string pos; for (int i = 0; i < n; i++) pos += mcx::fmt("[%g,%g %gx%g]", rs[i]->getCentreX(), rs[i]->getCentreY(), rs[i]->width(), rs[i]->height());
     for (int i = 0; i < n; i++) { if (!(rs[i]->getCentreX() == rs[i]->getCentreX()) || std::isinf(rs[i]->getCentreX()) || !(rs[i]->getCentreY() == rs[i]->getCentreY())) ctx.violation("nonfinite", {}, desc, pos); if (fabs(rs[i]->width() - w0[i]) > 1e-9 || fabs(rs[i]->height() - h0[i]) > 1e-9) ctx.violation("size_changed", {}, desc, pos); }
